@@ -1524,3 +1524,52 @@ func ruleX13(c *Ctx, pkgs map[string]bool) {
 		R.OK("X13", "error-packages/no-interface-compare", "-", "no two error interface values are compared with == / !=")
 	}
 }
+
+// ---------------------------------------------------------------- T4
+
+// ruleT4: the close hook of IteratorWithHook runs before the iterator's own
+// context is cancelled; a hook that waits for the background worker therefore
+// waits for a goroutine that is itself waiting for that cancellation.
+func ruleT4(c *Ctx, pkgs map[string]bool, floor int) {
+	R := c.R
+	p := c.P
+	R.Rule("T4", "the close hook handed to IteratorWithHook never blocks on the construct's background work (no WaitGroup wait, Operation.Wait/Block, Worker.Wait/Block inside the hook): the hook runs before the iterator's context is cancelled, so the worker it would wait for cannot have stopped yet", floor)
+	for _, f := range p.Funcs {
+		if !pkgs[shortPkg(f.Pkg.PkgPath)] {
+			continue
+		}
+		info := f.Info()
+		n := 0
+		walkNoLit(f.Body, func(x ast.Node) bool {
+			call, ok := x.(*ast.CallExpr)
+			if !ok || callName(info, call) != "fun.Producer.IteratorWithHook" || len(call.Args) != 1 {
+				return true
+			}
+			n++
+			at := fmt.Sprintf("%s/close-hook#%d", f.Name, n)
+			pos := p.Position(call.Pos())
+			lit, ok := ast.Unparen(resolveLocal(f, call.Args[0])).(*ast.FuncLit)
+			if !ok {
+				R.OK("T4", at, pos, "hook is not a literal of this function ("+exprStr(call.Args[0])+")")
+				return true
+			}
+			bad := ""
+			ast.Inspect(lit.Body, func(y ast.Node) bool {
+				cc, ok := y.(*ast.CallExpr)
+				if !ok {
+					return true
+				}
+				if _, isWait := isWaitCall(info, cc); isWait {
+					bad = exprStr(cc)
+				}
+				switch callName(info, cc) {
+				case "fun.Operation.Wait", "fun.Operation.Block", "fun.Worker.Wait", "fun.Worker.Block", "sync.(*WaitGroup).Wait":
+					bad = exprStr(cc)
+				}
+				return true
+			})
+			R.Check(bad == "", "T4", at, pos, "the hook does not wait for background work", fmt.Sprintf("the close hook of %s blocks in %s: Close() runs the hook before it cancels the iterator's context, and the worker the hook waits for only stops on that cancellation — Close never returns and the worker leaks", f.Name, bad))
+			return true
+		})
+	}
+}
